@@ -115,6 +115,7 @@ impl Swarm {
         }
         s.awkward = match focus {
             Focus::Compile => rng.chance(1, 2),
+            Focus::Defaults => rng.chance(1, 3),
             Focus::Fixtures | Focus::FixturesBig => false,
             _ => rng.chance(1, 4),
         };
@@ -303,6 +304,19 @@ fn gen_type(rng: &mut Rng, cx: &mut Ctx, depth: u32, in_property: bool) -> Value
                 json!({"type": "integer", "format": *rng.pick(INT_FORMATS)})
             };
             json!({"type": "array", "items": it, "uniqueItems": true})
+        }
+        5 if cx.sw.maps && cx.sw.defaults == 0 && rng.chance(1, 4) => {
+            // a map whose keys are constrained by several patterns (one value
+            // schema): typify joins the patterns into the key type's regex
+            let it = gen_scalar(rng, cx.sw);
+            let mut pats = vec!["^a", "^[b-d]+$", "^x-", "_id$", "^k[0-9]$"];
+            rng.shuffle(&mut pats);
+            pats.truncate(rng.range(2, 4));
+            let mut pp = Map::new();
+            for p in pats {
+                pp.insert(p.to_string(), it.clone());
+            }
+            json!({"type": "object", "patternProperties": pp, "additionalProperties": false})
         }
         5 if cx.sw.maps => {
             let it = gen_type(rng, cx, depth + 1, false);
@@ -564,14 +578,27 @@ pub fn gen_instance(rng: &mut Rng, schema: &Value, defs: &Defs, depth: u32) -> O
         }
         "string" => {
             let max = o.get("maxLength").and_then(|m| m.as_u64()).unwrap_or(8) as usize;
-            let s: &str = *rng.pick(&["", "a", "hello", "zz top"]);
+            let s: &str = *rng.pick(&["", "a", "hello", "zz top", "q\"uo", "b\\s", "t\tab", "\u{fc}ml"]);
             json!(s.chars().take(max).collect::<String>())
         }
         "integer" => {
             let min = o.get("minimum").and_then(|m| m.as_f64()).unwrap_or(0.0) as i64;
-            json!(min + rng.below(100) as i64)
+            let v = min + rng.below(100) as i64;
+            let unsigned = o.get("format").and_then(|f| f.as_str()).map(|f| f.starts_with("uint")).unwrap_or(false);
+            if o.get("minimum").is_none() && !unsigned && rng.chance(1, 3) {
+                json!(-v)
+            } else {
+                json!(v)
+            }
         }
-        "number" => json!(rng.below(1000) as f64 / 8.0),
+        "number" => match rng.below(8) {
+            0 => json!(-(rng.below(1000) as f64) / 8.0),
+            // tiny but not zero, huge, integral spelling
+            1 => json!(*rng.pick(&[1e-17, -1e-20, 2.5e-300])),
+            2 => json!(*rng.pick(&[1e21, -3e25])),
+            3 => json!(rng.below(50) as i64),
+            _ => json!(rng.below(1000) as f64 / 8.0),
+        },
         "array" => {
             match o.get("items") {
                 Some(Value::Array(schemas)) => {
@@ -1187,6 +1214,22 @@ fn gen_addtype_plain(rng: &mut Rng, sw: &Swarm, added: &[String], hints_used: &m
                 hint: Some(h),
                 poison: None,
             }
+        }
+        4 | 5 if (!added.is_empty() || !hints_used.is_empty()) && rng.chance(1, 3) => {
+            // a hint that names an existing type, on a schema that does NOT convert to
+            // a named type (a list of inline objects, a scalar, a list of scalars): the
+            // hint only names the children
+            let h = if !hints_used.is_empty() && (added.is_empty() || rng.chance(1, 2)) {
+                rng.pick(hints_used).clone()
+            } else {
+                pascal(rng.pick(added).as_str())
+            };
+            let schema = match rng.below(3) {
+                0 => json!({"type": "array", "items": gen_object(rng, &mut cx, 2, 1, 2)}),
+                1 => gen_scalar(rng, sw),
+                _ => json!({"type": "array", "items": gen_scalar(rng, sw)}),
+            };
+            Op::AddType { schema, hint: Some(h), poison: None }
         }
         _ => {
             let h = format!("Hint{n}");
